@@ -431,7 +431,7 @@ var def = pbt.Def[Case]{Name: "requestor-lifecycle", Gen: gen, Run: judge, Journ
 
 func TestProp(t *testing.T) {
 	outerT = t
-	pbt.Check(t, run, def, 10000, 1500000)
+	pbt.Check(t, run, def, 10000, 800000)
 }
 
 func TestReplay(t *testing.T) {
